@@ -56,6 +56,25 @@ func pkcs7decode(buf []byte, _ int) []byte {
 	return buf[:n]
 }
 
+// pkcs7valid reports whether buf is a whole number of blocks ending in
+// well-formed PKCS7 padding, i.e. whether pkcs7decode can be applied to it.
+func pkcs7valid(buf []byte, blockSize int) bool {
+	n := len(buf)
+	if n == 0 || n%blockSize != 0 {
+		return false
+	}
+	pad := int(buf[n-1])
+	if pad == 0 || pad > blockSize {
+		return false
+	}
+	for _, b := range buf[n-pad:] {
+		if int(b) != pad {
+			return false
+		}
+	}
+	return true
+}
+
 // encryptOverhead returns the maximum possible overhead of encryption by version
 func encryptOverhead(vsn encryptionVersion) int {
 	switch vsn {
@@ -191,6 +210,12 @@ func decryptPayload(keys [][]byte, msg []byte, data []byte) ([]byte, error) {
 		if err == nil {
 			// Remove the PKCS7 padding for vsn 0
 			if vsn == 0 {
+				// The version byte is not covered by the authentication
+				// tag, so a version 1 message (no padding) can be relabeled
+				// as version 0 in transit. Never trust the last byte blindly.
+				if !pkcs7valid(plain, aes.BlockSize) {
+					return nil, fmt.Errorf("invalid padding in version 0 payload")
+				}
 				return pkcs7decode(plain, aes.BlockSize), nil
 			} else {
 				return plain, nil
